@@ -41,23 +41,33 @@ class Ctx:
         self.env = C.run_env()
         self.env.pop("HWLOC_CPUKINDS_RANKING", None)
 
-    def model(self, cases):
-        rc, out, err = _run(self.drv, cases)
+    def model(self, cases, couts=None):
+        """run the model; caseroot cases start from the state the implementation loaded (couts)"""
+        scripts = []
+        for c in cases:
+            s = G.model_script(c, (couts or {}).get(c[0].split()[1]))
+            if s is not None:
+                scripts.append(s)
+        if not scripts:
+            return {}
+        rc, out, err = _run(self.drv, scripts)
         if rc != 0:
             raise RuntimeError("model driver failed: " + err[-2000:])
         return G.split_cases(out)[0]
 
-    def impl(self, cases):
-        rc, out, err = _run(self.exe, cases, env=self.env)
+    def impl(self, cases, **envkw):
+        env = dict(self.env)
+        env.update(envkw)
+        rc, out, err = _run(self.exe, cases, env=env)
         return rc, G.split_cases(out)[0], err
 
     def verdict_one(self, case):
         """Run one case alone on both sides.  Returns (kind, key, what, impl_lines, model_lines)
         kind in: ok, crash, spec, diff, drift"""
         name = case[0].split()[1]
-        m = self.model([case]).get(name, [])
         rc, outs, err = self.impl([case])
         c = outs.get(name, [])
+        m = self.model([case], outs).get(name, [])
         fatal = [l for l in m if l.startswith("FATAL")]
         bad = G.spec_check(case, c)
         if fatal:
@@ -118,6 +128,60 @@ def _report(ctx, case, shrink=True):
     return kind
 
 
+SNAPSHOTS = ["fakeheterocpunuma", "2arm-2c", "32amd64-4s2n4c-cgroup2", "8ia64-2s2c2t"]
+SNAPSHOTS_THOROUGH = ["48amd64-4pa2n6c-sparse", "128arm-2pa2n8cluster4co", "32em64t-2n8c+dax+nvme+mic+dimms"]
+_scratch = None
+
+
+def snapshot_cases(run):
+    """Linux sysfs snapshots whose cpufreq / cpu_capacity files make the Linux backend register kinds
+    (look_sysfscpukinds, HWLOC_CPUKINDS_HOMOGENEOUS): the loaded kinds are judged by the specification
+    and are the starting state of further public operations compared with the model"""
+    global _scratch
+    from gen import topo_sources as S
+    rng = run.rng
+    thorough = run.tier == "thorough"
+    have = {os.path.basename(p)[:-8]: p for p in S.snapshots("linux")}
+    names = [n for n in SNAPSHOTS + (SNAPSHOTS_THOROUGH if thorough else []) if n in have]
+    if not names:
+        run.cov["linux_snapshots"] = "none found"
+        return []
+    _scratch = S.Scratch()
+    out = []
+    i = 0
+    for n in names:
+        d = _scratch.unpack(have[n])
+        reps = (40 if thorough else 8) if n == "fakeheterocpunuma" else (6 if thorough else 2)
+        for r in range(reps):
+            homog = ["-", "1", "0", "-"][r % 4] if n == "fakeheterocpunuma" else ["-", "1"][r % 2]
+            ranking = rng.choice(G.ENVS[1:11]) if r >= 2 else None
+            out.append(("linux-snapshot", G.snapshot_case(rng, "ls%d" % i, d, homog, ranking)))
+            i += 1
+    # a derived hybrid snapshot: Intel core/atom/low-power PMU cpulists, more than four distinct maximal
+    # frequencies (the backend's per-value array has to grow), every HWLOC_CPUKINDS_MAXFREQ mode
+    if "fakeheterocpunuma" in have:
+        import shutil
+        src = _scratch.unpack(have["fakeheterocpunuma"])
+        dst = os.path.join(_scratch.dir, "derived-hybrid")
+        if not os.path.isdir(dst):
+            shutil.copytree(src, dst, symlinks=True)
+            for pmu, cpus in (("cpu_atom", "0-7"), ("cpu_core", "8-19"), ("cpu_lowpower", "20-23")):
+                os.makedirs(os.path.join(dst, "sys/devices", pmu), exist_ok=True)
+                open(os.path.join(dst, "sys/devices", pmu, "cpus"), "w").write(cpus + "\n")
+            for c in range(24):
+                f = os.path.join(dst, "sys/devices/system/cpu/cpu%d/cpufreq/cpuinfo_max_freq" % c)
+                if os.path.exists(f):
+                    os.chmod(f, 0o644)
+                    open(f, "w").write("%d\n" % (2000000 + (c % 6) * 150000 + (c // 12) * 7000))
+        for r, mf in enumerate(["-", "0", "1", "adjust=3", "adjust=50", "-"] * (3 if thorough else 1)):
+            out.append(("linux-snapshot", G.snapshot_case(rng, "ls%d" % i, dst, ["-", "-", "-", "-", "-", "1"][r % 6],
+                                                          rng.choice(G.ENVS[1:11]) if r % 2 else None, maxfreq=mf)))
+            i += 1
+        names = names + ["derived-hybrid(fakeheterocpunuma + cpu_atom/cpu_core/cpu_lowpower, 12 max frequencies)"]
+    run.cov["linux_snapshots"] = names
+    return out
+
+
 def gen_cases(run):
     rng = run.rng
     cases = []
@@ -144,6 +208,11 @@ def gen_cases(run):
                                               maxops=rng.choice([8, 12, 12, 25]))))
     for i in range(1500 if thorough else 250):
         cases.append(("info-ranking", G.info_rank_case(rng, "ir%d" % i, nbpus=rng.choice([4, 8, 12]))))
+    for i in range(1500 if thorough else 250):
+        cases.append(("internal-register", G.internal_case(rng, "in%d" % i, nbpus=rng.choice([4, 8, 16]))))
+    for i in range(600 if thorough else 100):
+        cases.append(("adopted", G.adopt_case(rng, "ad%d" % i, nbpus=rng.choice([4, 8, 16]))))
+    cases += snapshot_cases(run)
     for i in range(400 if thorough else 80):
         cases.append(("malformed", G.malformed_case(rng, "bad%d" % i)))
     # a dedicated stream that registers right after a restrict (regression for fix c027890: stale vacated slot)
@@ -173,16 +242,9 @@ def check(run, replay=None):
         names[c[0].split()[1]] = (kind, c)
     allc = [c for _, c in cases]
 
-    # 1. model on everything
-    mout = ctx.model(allc)
-    fatal = [n for n, ls in mout.items() if any(l.startswith("FATAL") for l in ls)]
-    for n in fatal[:3]:
-        _report(ctx, names[n][1])
-    batch = [names[n][1] for n in names if n not in fatal]
-
-    # 2. implementation on the batch (one process; on a crash, continue after the offending case)
+    # 1. implementation on everything (one process; on a crash, continue after the offending case)
     cout = {}
-    todo = batch
+    todo = allc
     crashes = 0
     while todo:
         rc, outs, err = ctx.impl(todo)
@@ -198,6 +260,13 @@ def check(run, replay=None):
         todo = todo[todo.index(culprit) + 1:]
         if crashes > 20:
             break
+
+    # 2. model on everything (Linux snapshot cases start from the state the implementation loaded)
+    mout = ctx.model(allc, cout)
+    fatal = [n for n, ls in mout.items() if any(l.startswith("FATAL") for l in ls)]
+    for n in fatal[:3]:
+        _report(ctx, names[n][1])
+    batch = [names[n][1] for n in names if n not in fatal]
 
     # 3. compare + evaluate the specification on the implementation's transcripts
     drift = 0
@@ -230,10 +299,32 @@ def check(run, replay=None):
             if ci != mi:
                 drift += 1
     run.cov["model_fatal_cases"] = len(fatal)
+    # 4. an unrecognized HWLOC_CPUKINDS_RANKING value: default strategy, and a message on stderr when
+    #    critical errors are shown (separate process: the HWLOC_HIDE_ERRORS value is cached)
+    loud = []
+    for i in range(3):
+        c = ["case loud%d 4" % i,
+             G.reg_line(G.BS(3), 2 + i, 0, [("CoreType", "IntelAtom")]),
+             G.reg_line(G.BS(12), 1, 0, [("CoreType", "IntelCore")]),
+             "env " + G.hexs(["bogus", "Default", "frequency "][i]), "rank", "env " + G.hexs("none"), "rank"]
+        loud.append(c)
+    rc, outs, err = ctx.impl(loud, HWLOC_HIDE_ERRORS="0")
+    ml = ctx.model(loud)
+    nmsg = err.count("Failed to recognize HWLOC_CPUKINDS_RANKING value")
+    for c in loud:
+        n = c[0].split()[1]
+        run.count("\n".join(outs.get(n, [])), True, None, "unrecognized-ranking-value")
+        if rc != 0 or G.public_view(outs.get(n, [])) != G.public_view(ml.get(n, [])) or G.spec_check(c, outs.get(n, [])):
+            _report(ctx, c, shrink=False)
+    if rc == 0 and nmsg != 3:
+        run.violation("unrecognized-ranking-message", "expected 3 'Failed to recognize HWLOC_CPUKINDS_RANKING value' messages on stderr with HWLOC_HIDE_ERRORS=0, got %d" % nmsg,
+                      _replay_text("input", sum(loud, []), [err[-1500:]], []))
     run.cov["drift"] = drift
     run.cov["further_failing_cases"] = {"count": len(more), "first": more[:20]}
     run.cov["hypothesis_frequencies"] = hyp
     run.cov["harness_crashes"] = crashes
+    if _scratch is not None:
+        _scratch.close()
     return run.finish(proof, trusted=_trusted())
 
 
